@@ -114,11 +114,17 @@ def copy_body(rep):
                 known = False
 
     scan(body, False)
-    ok = bool(calls) and all(k for _, k in calls)
+    self_calls = [c for c in calls if c[0].replace(" ", "").startswith("deepcopy(self")]
+    if not self_calls:
+        # copy() is written in another way than `x = deepcopy(self)`: these structural obligations do not apply (undecided, the bounded contract check decides)
+        for nm in ("S1.every-deepcopy(self)-runs-while-self._parent-is-None", "S2.writes-only-through-the-copy", "S3.keyword-overrides-are-applied-by-setattr-on-the-copy", "returns-the-deep-copy"):
+            rep.obligation("BaseGeo.copy." + nm, {"status": "unknown", "backend": "ast", "time_s": 0, "reason": "copy() no longer has the recognised shape `x = deepcopy(self)`"}, fnl)
+        return fails
+    ok = all(k for _, k in self_calls)
     rep.obligation("BaseGeo.copy.S1.every-deepcopy(self)-runs-while-self._parent-is-None", _st(ok), fnl, "post",
                    sample={"deepcopy_calls": [c for c, _ in calls]})
     if not ok:
-        fails.append(dict(name="BaseGeo.copy.S1", why=f"a deepcopy call is not dominated by `self._parent is None`: {[c for c, k in calls if not k] or 'no deepcopy(self) found'}"))
+        fails.append(dict(name="BaseGeo.copy.S1", why=f"a deepcopy(self) call is not dominated by `self._parent is None`: {[c for c, k in self_calls if not k]}"))
 
     # ---- S2 / S3: statements after the first deepcopy write through obj_copy only
     flat = []
